@@ -4,6 +4,7 @@ from ..r_readers import (rule_raise_family, rule_implicit_raises, rule_tokenizer
 from ..r_codebooks import rule_charge_spellings
 from ..r_reaction import rule_role_zip as _rule_role_zip
 from ..r_codebooks import rule_closure_slots as _rule_closure_slots
+from ..r_hygiene import rule_hygiene as _rule_hygiene
 
 LEVEL = 'other'
 EXEMPT = {('_convert', 'create_molecule', 'AtomNotFound'): 'infeasible for the daylight readers: every bond end was just inserted by the same parser '
@@ -25,3 +26,4 @@ def run(ck, repo):
     rule_charge_spellings(ck, repo, 'C03.D2-charge-spellings')
     _rule_role_zip(ck, repo, 'C03.D1-role-pairing', lambda f: f.module.name == 'chython.files.daylight.smiles', floor=1)
     _rule_closure_slots(ck, repo, 'C03.D2-closure-slots')
+    _rule_hygiene(ck, repo, 'C03.H-dataflow-hygiene', 'C03')
